@@ -269,11 +269,11 @@ func runValidate(c *core.Ctx) []core.Obligation {
 		}
 		switch {
 		case sites == 0:
-			b.addP([]string{"C05", "C02"}, core.Undecided, key, c.FuncPos(ipf), "noBackslash is never set")
+			b.addP([]string{"C05", "C02", "C14"}, core.Undecided, key, c.FuncPos(ipf), "noBackslash is never set")
 		case !good:
-			b.addP([]string{"C05", "C02"}, core.Violation, key, where, "noBackslash is OR-ed into a flags value outside the branch where bytes.IndexByte(b, '\\\\') found nothing: strings then skip escape processing on input that contains backslashes")
+			b.addP([]string{"C05", "C02", "C14"}, core.Violation, key, where, "noBackslash is OR-ed into a flags value outside the branch where bytes.IndexByte(b, '\\\\') found nothing: strings then skip escape processing on input that contains backslashes")
 		default:
-			b.addP([]string{"C05", "C02"}, core.Discharged, key, c.FuncPos(ipf), "set only in internalParseFlags on the branch bytes.IndexByte(b, '\\\\') == -1")
+			b.addP([]string{"C05", "C02", "C14"}, core.Discharged, key, c.FuncPos(ipf), "set only in internalParseFlags on the branch bytes.IndexByte(b, '\\\\') == -1")
 		}
 	}
 
